@@ -1,21 +1,31 @@
 #!/bin/bash
-# builds the binary that serves check $1 from /repo's current working tree; prints its path on the last line
+# builds the binary that serves check $1 from the repository's current working tree; prints its path on the last line.
+# VERIF_REPO (default /repo) selects the tree; a non-default tree gets its own output directory, so testing a
+# scratch worktree never disturbs /repo or the binaries built from it.
 set -eu
 V=$(cd "$(dirname "$0")" && pwd)
 export GOFLAGS=-mod=mod GOPROXY=off GOSUMDB=off GOTOOLCHAIN=local
 ID=${1:-all}
+REPO=${VERIF_REPO:-/repo}
+BIN="$V/.bin"
+MODFLAG=""
 cd "$V/harness"
-cp /repo/go.sum go.sum.repo
-cat go.sum.repo go.sum.extra 2>/dev/null | sort -u > go.sum
-rm -f go.sum.repo
-mkdir -p "$V/.bin"
+cat "$REPO/go.sum" go.sum.extra 2>/dev/null | sort -u > go.sum
+if [ "$REPO" != "/repo" ]; then
+  BIN="$V/.bin/alt-$(echo "$REPO" | tr '/' '_')"
+  mkdir -p "$BIN"
+  sed "s#=> /repo#=> $REPO#" go.mod > "$BIN/go.mod"
+  cp go.sum "$BIN/go.sum"
+  MODFLAG="-modfile=$BIN/go.mod"
+fi
+mkdir -p "$BIN"
 go build -o "$V/.bin/vinstr" ./cmd/vinstr
-OV="$V/.bin/overlay"
-if "$V/.bin/vinstr" -repo /repo -shim "$V/shim" -out "$OV" && go build -overlay "$OV/overlay.json" -tags verifx -o "$V/.bin/vcheck" ./cmd/vcheck \
-   && (cd /repo && go build -overlay "$OV/overlay.json" -o "$V/.bin/csvq-verif" .); then
-  echo "$V/.bin/vcheck"
+OV="$BIN/overlay"
+if "$V/.bin/vinstr" -repo "$REPO" -shim "$V/shim" -out "$OV" && go build $MODFLAG -overlay "$OV/overlay.json" -tags verifx -o "$BIN/vcheck" ./cmd/vcheck \
+   && (cd "$REPO" && go build -overlay "$OV/overlay.json" -o "$BIN/csvq-verif" .); then
+  echo "$BIN/vcheck"
   exit 0
 fi
 echo "instrumented build failed; building the plain harness (checks that need the overlay are unavailable)"
-go build -o "$V/.bin/vcheck" ./cmd/vcheck
-echo "$V/.bin/vcheck"
+go build $MODFLAG -o "$BIN/vcheck" ./cmd/vcheck
+echo "$BIN/vcheck"
